@@ -1,0 +1,172 @@
+//go:build verif
+// +build verif
+
+package core
+
+import (
+	"math/big"
+	"strconv"
+	"time"
+
+	"com.tuntun.rangers/node/src/common"
+	"com.tuntun.rangers/node/src/middleware"
+	"com.tuntun.rangers/node/src/middleware/db"
+	"com.tuntun.rangers/node/src/middleware/log"
+	"com.tuntun.rangers/node/src/middleware/types"
+	"com.tuntun.rangers/node/src/service"
+	"com.tuntun.rangers/node/src/storage/account"
+)
+
+// Verification hook for property C05 (build tag verif, add-only): boot the
+// block chain alone (no network, no sync processor, no group chain), re-run its
+// start-up on the same stores after a simulated process death, build blocks
+// with genuine roots on any known parent without leaving a trace in the
+// chain's caches, and look at the raw indexes.
+// Nothing here is compiled without the tag.
+
+// VerifC05Boot runs the node's block-chain start-up (initBlockChain, unchanged)
+// with the given consensus helper. A chain that is already open is forgotten
+// first the way a process exit forgets it (nothing is flushed or repaired); the
+// stores stay as they are on disk. The tx pool and the account database manager
+// must have been restarted by the caller (service.VerifC05RestartTxPool,
+// middleware.VerifC05RestartStateDB) so that no volatile state survives.
+func VerifC05Boot(helper types.ConsensusHelper, groups types.GroupChainHelper, fork types.ForkHelper) error {
+	idx := strconv.Itoa(common.InstanceIndex)
+	if logger == nil {
+		logger = log.GetLoggerByIndex(log.CoreLogConfig, idx)
+		txLogger = log.GetLoggerByIndex(log.TxLogConfig, idx)
+		syncLogger = log.GetLoggerByIndex(log.SyncLogConfig, idx)
+		syncHandleLogger = log.GetLoggerByIndex(log.SyncHandleLogConfig, idx)
+		rewardLog = log.GetLoggerByIndex(log.RewardLogConfig, idx)
+	}
+	consensusHelper = helper
+	blockChainImpl = nil
+	common.SetBlockHeight(0)
+	if d, err := db.NewDatabase(hashDBPrefix); err == nil {
+		db.VerifC05Name(d, "chain")
+	}
+	service.InitRefundManager(groups, fork)
+	if err := initBlockChain(); err != nil {
+		return err
+	}
+	service.InitRewardCalculator(blockChainImpl, groups, fork)
+	return nil
+}
+
+// VerifC05Head is the in-memory head.
+func VerifC05Head() *types.BlockHeader { return blockChainImpl.latestBlock }
+
+// VerifC05RawHeight reads the height index on disk, bypassing the topBlocks cache.
+func VerifC05RawHeight(h uint64) *types.BlockHeader {
+	return blockChainImpl.QueryBlockHeaderByHeight(h, false)
+}
+
+// VerifC05RawCurrent reads the recorded head ("bcurrent") from disk.
+func VerifC05RawCurrent() *types.BlockHeader {
+	return blockChainImpl.QueryBlockHeaderByHeight([]byte(latestBlockKey), false)
+}
+
+// VerifC05Marks reports whether the add / remove intent marks are present.
+func VerifC05Marks() (add bool, remove bool) {
+	a, _ := blockChainImpl.hashDB.Get([]byte(addBlockMark))
+	r, _ := blockChainImpl.hashDB.Get([]byte(removeBlockMark))
+	return a != nil, r != nil
+}
+
+// VerifC05Dump lists every key of the three index stores (store prefix, un-prefixed key).
+func VerifC05Dump() [][2][]byte {
+	res := make([][2][]byte, 0)
+	for _, s := range []struct {
+		d db.Database
+		p string
+	}{{blockChainImpl.hashDB, hashDBPrefix}, {blockChainImpl.heightDB, heightDBPrefix}, {blockChainImpl.verifyHashDB, verifyHashDBPrefix}} {
+		it := s.d.NewIterator()
+		for it.Next() {
+			k := append([]byte{}, it.Key()...)
+			if len(k) >= len(s.p) {
+				k = k[len(s.p):]
+			}
+			res = append(res, [2][]byte{[]byte(s.p), k})
+		}
+		it.Release()
+	}
+	return res
+}
+
+// VerifC05StateOpens reports whether the state root can be opened.
+func VerifC05StateOpens(root common.Hash) bool {
+	_, err := middleware.AccountDBManagerInstance.GetAccountDBByHash(root)
+	return err == nil
+}
+
+// VerifC05InVerifiedCache tells whether the verified-block cache holds the hash.
+func VerifC05InVerifiedCache(hash common.Hash) bool {
+	return blockChainImpl.verifiedBlocks.Contains(hash)
+}
+
+// VerifC05BuildBlock produces the block a proposer would broadcast on top of
+// parent: it executes txs on parent's state exactly as checkStates(setHash=true)
+// does and fills state root, receipt root, tx root, evicted list and hash, but
+// does not touch the chain's caches or stores: the resulting state is committed
+// into sdb only (middleware.VerifC05BuilderStateDB, an in-memory overlay), so
+// that further blocks can be prepared on top of this one before any of them is
+// delivered. parent's state root must be readable through sdb.
+func VerifC05BuildBlock(sdb account.AccountDatabase, parent *types.BlockHeader, height uint64, qn uint64, pv *big.Int, castor, group []byte, cur time.Time, txs []*types.Transaction) *types.Block {
+	bh := &types.BlockHeader{
+		CurTime:    cur,
+		Height:     height,
+		ProveValue: pv,
+		Castor:     castor,
+		GroupId:    group,
+		TotalQN:    parent.TotalQN + qn,
+		PreHash:    parent.Hash,
+		PreTime:    parent.CurTime,
+	}
+	bh.RequestIds = getRequestIdFromTransactions(txs, parent.RequestIds)
+	block := &types.Block{Header: bh, Transactions: txs}
+	state, err := account.NewAccountDB(common.BytesToHash(parent.StateTree.Bytes()), sdb)
+	if err != nil {
+		panic("verif c05: parent state missing: " + err.Error())
+	}
+	vmExecutor := newVMExecutor(state, block, "fullverify")
+	stateRoot, evictedTxs, transactions, receipts := vmExecutor.Execute()
+	bh.StateTree = stateRoot
+	bh.ReceiptTree = calcReceiptsTree(receipts)
+	bh.EvictedTxs = evictedTxs
+	transactionHashes := make([]common.Hashes, len(transactions))
+	block.Transactions = transactions
+	for i, transaction := range transactions {
+		hashes := common.Hashes{}
+		hashes[0] = transaction.Hash
+		hashes[1] = transaction.SubHash
+		transactionHashes[i] = hashes
+	}
+	bh.Transactions = transactionHashes
+	bh.TxTree = calcTxTree(block.Transactions)
+	bh.Hash = bh.GenHash()
+	if root, err := state.Commit(true); err != nil {
+		panic("verif c05: builder state commit: " + err.Error())
+	} else if err = sdb.TrieDB().Commit(root, false); err != nil {
+		panic("verif c05: builder trie commit: " + err.Error())
+	}
+	return block
+}
+
+// VerifC05Future returns the orphan block parked under the given parent hash (no LRU touch).
+func VerifC05Future(pre common.Hash) *types.Block {
+	if v, ok := blockChainImpl.futureBlocks.Peek(pre); ok && v != nil {
+		return v.(*types.Block)
+	}
+	return nil
+}
+
+// VerifC05TopCached returns the header the topBlocks cache holds for a height (no LRU touch).
+func VerifC05TopCached(h uint64) (*types.BlockHeader, bool) {
+	if v, ok := blockChainImpl.topBlocks.Peek(h); ok {
+		if v == nil {
+			return nil, true
+		}
+		return v.(*types.BlockHeader), true
+	}
+	return nil, false
+}
